@@ -19,18 +19,34 @@ RULE = ("to_chars: every value of int8/uint8 x every base 2..36 x every buffer l
         "zones on both sides); every value of int16/uint16 (quick: every 7th and the edges) x every base with exact-fit, "
         "one-byte-short and round-trip through from_chars; for the 32/64-bit types base^k and base^k+-1, limits, limits/base+-1, "
         "0, +-1 and seeded random values x every base x lengths {0,1,digits-1..digits+2} (thorough: all 0..digits+2). "
-        "from_integer the same with and without terminator; to_string<Capacity> for every fitting capacity <= 24. "
+        "from_integer with and without terminator: 8-bit exhaustive as to_chars (quick: bases 2,10,16,36), the 16/32/64-bit "
+        "boundary values in bases 2,10,16,36 (thorough: all) x lengths digits-1..digits+2; to_string<Capacity> for every "
+        "fitting capacity <= 24. The same templates for char, char8_t, char16_t, char32_t, wchar_t, long long and unsigned "
+        "long long (reference: the standard integer type of the same width) on the boundary values in bases 2,8,10,16,36 "
+        "(thorough: all bases). "
         "from_chars/to_integer: every string of length <= 4 over {0,1,7,z,-,+,space,G} for the 8-bit types in bases 2,8,10,36, "
         "plus, for every type and base, the texts of max, max+1, max with one more digit, max/base, min, min-1 ... with leading "
         "zeros, upper case, white space, sign and garbage variants, plus seeded random digit strings up to 70 characters. "
-        "strto*/sto*/ato*: the same grammar with +, 0x, base 0/8/16 and C-string truncation. A case is non-trivial when "
+        "to_integer with check_overflow = false: the limit texts and seeded random texts in bases 2,8,10,16,36 (thorough: "
+        "all) for every type; for int/long/long long/wchar_t only those whose value is representable. "
+        "strto*/sto*/ato*: every string of length <= 4 over {0,1,9,f,x,-,+,space} (strtol base 10 and base 0, strtoul "
+        "base 16, stoi/atoi base 10, stoul base 0 up to length 3; thorough: 4), the limit texts of each function's type in "
+        "every base 2..36 (ato*: 10) with the decorations above plus '+' and '0x', seeded random digit strings in bases "
+        "{2,8,10,16,36,random} with embedded NULs and 0x prefixes in base 16, and for base 0 (auto-detect; only "
+        "strto*/sto* take it): hexadecimal (0x/0X), octal (0) and decimal renderings of the limits and limits+-1 with "
+        "upper case, white space, sign, doubled prefix and trailing 8/9/g/x garbage, lone 0x, 0xg, 0b/0o texts and seeded "
+        "random prefixed digit strings. to_integer/from_chars themselves are not run with base 0 (std::from_chars has no "
+        "base 0 to compare with). A case is non-trivial when "
         "something is converted (>= 2 characters produced/consumed) or an error class other than 'empty input' is reached; "
         "distinct = distinct case text.")
 ASSUMPTIONS = ["libstdc++ 12 <charconv>/<string> and glibc strto* are the reference for spec validation (R2)",
                "plain char is signed, int is 32 bit, long and long long are 64 bit (x86-64 Linux, the harness platform)",
-               "base is in [2,36] (precondition of every function of the property); to_string<Capacity> needs "
+               "base is in [2,36] (the standard's precondition of to_chars/from_chars/from_integer; the code does not "
+               "check it) or, for to_integer and the strto*/sto* wrappers, 0; to_string<Capacity> needs "
                "Capacity > number of characters (its TETL_PRECONDITION)",
-               "to_integer is modelled with check_overflow = true (the only configuration any wrapper uses)"]
+               "to_integer with check_overflow = false is only claimed for texts whose value is representable (the "
+               "contract of the option); outside it the run compares implementation and model (wrap-around) for the types "
+               "where the overflow is defined, and runs nothing for int/long (undefined behaviour)"]
 TRUSTED = ["hand model Tetl/C10/Model.lean tied to the source by the correspondence run (R1) on every run",
            "spec Tetl/C10/Spec.lean validated against libstdc++/glibc (R2) on every run",
            "etl::reverse is modelled by its contract (List.reverse of the sub-range), not by its swap loop (C06)"]
@@ -38,13 +54,15 @@ SEARCH_CAP = 900000
 
 TYPES = {"i8": (8, True), "u8": (8, False), "i16": (16, True), "u16": (16, False),
          "i32": (32, True), "u32": (32, False), "i64": (64, True), "u64": (64, False)}
+# further integral types of the harness, modelled by the (bits, signed) pair of the listed type
+ALIAS = {"c8": "i8", "c8u": "u8", "c16": "u16", "c32": "u32", "wc": "i32", "ill": "i64", "ull": "u64"}
 FN_TY = {"strtol": "i64", "strtoll": "i64", "strtoul": "u64", "strtoull": "u64", "atoi": "i32", "atol": "i64",
          "atoll": "i64", "stoi": "i32", "stol": "i64", "stoll": "i64", "stoul": "u64", "stoull": "u64"}
 DIG = "0123456789abcdefghijklmnopqrstuvwxyz"
 
 
 def limits(ty):
-    bits, sg = TYPES[ty]
+    bits, sg = TYPES[ALIAS.get(ty, ty)]
     return (-(1 << (bits - 1)), (1 << (bits - 1)) - 1) if sg else (0, (1 << bits) - 1)
 
 
@@ -80,7 +98,7 @@ def interesting(ty, b, rnd, nrand):
                 vals.add(-(p + d))
         p *= b
     for _ in range(nrand):
-        bits = rnd.randint(1, TYPES[ty][0])
+        bits = rnd.randint(1, TYPES[ALIAS.get(ty, ty)][0])
         x = rnd.getrandbits(bits)
         vals.add(x)
         if lo < 0:
@@ -120,6 +138,55 @@ def parse_texts(ty, b, rnd):
         else:
             out.append(t + DIG[rnd.randrange(b)])
     return out
+
+
+def auto_text(n, b):
+    """the text of `n` as strtol(.., 0) reads it in base b (16: 0x prefix, 8: leading 0, 10: plain)"""
+    t = render(abs(n), b)
+    return ("-" if n < 0 else "") + {16: "0x", 8: "0", 10: ""}[b] + t
+
+
+def auto_texts(ty, rnd):
+    """base-0 texts: the numbers of parse_texts with a hexadecimal / octal / no prefix, decorated"""
+    lo, hi = limits(ty)
+    out = ["0", "00", "0x", "0X", "0x0", "0xg", "0xG", "-0x", "-0", "08", "09", "0779", "0x1fg", "0X1F", " \t0x10", "0 x1",
+           "0x 1", "0x-1", "0x+1", "+0x1f", "+017", "+12", "-+1", "0x0x1", "00x1", "1x1", "x1", "0b101", "0o17", "0x\x00" + "1"]
+    for b in (16, 8, 10):
+        nums = {hi, hi + 1, hi - 1, hi * b, hi // b, hi // b + 1, 0, 1, b - 1, b, lo, lo - 1, lo + 1, lo * b, 7, 8, 9, 15, 16}
+        if lo == 0:
+            nums |= {-1, -hi, -(hi + 1)}
+        for n in sorted(nums):
+            t = auto_text(n, b)
+            out.append(t)
+            k = rnd.randrange(6)
+            if k == 0:
+                out.append(t.upper())                              # 0X.., upper-case hex digits
+            elif k == 1:
+                out.append(rnd.choice([" ", "\t", "\n ", "  "]) + t)
+            elif k == 2:
+                out.append(t + rnd.choice([" ", "!", "8", "9", "a", "f", "g", "x", "\x00", "\xff"]))
+            elif k == 3:
+                out.append(t.replace("0x", "0x0", 1) if b == 16 else "0" + t.lstrip("-") if b == 8 else t + "0")
+            elif k == 4:
+                out.append(("+" if n >= 0 else "-+") + t.lstrip("-"))
+    return out
+
+
+def py_parse(ty, text, b, ws):
+    """value of `text` under the to_integer grammar (None: no digits) - only used to keep texts whose value is not
+    representable away from the unchecked configuration of the types where that is undefined behaviour"""
+    bits, sg = TYPES[ALIAS.get(ty, ty)]
+    i = 0
+    if ws:
+        while i < len(text) and _is_space(ord(text[i])):
+            i += 1
+    neg = sg and i < len(text) and text[i] == "-"
+    if neg:
+        i += 1
+    v, n = 0, 0
+    while i < len(text) and text[i].lower() in DIG[:b] and ord(text[i]) < 128:
+        v, n, i = v * b + DIG.index(text[i].lower()), n + 1, i + 1
+    return None if n == 0 else (-v if neg else v)
 
 
 def random_text(b, rnd):
@@ -169,6 +236,10 @@ def generate(tier, seed):
                 L = len(render(v, b))
                 for n in lens_for(L, thorough):
                     add("to_chars ty=%s v=%d base=%d len=%d" % (ty, v, b, n), "to_chars/16")
+                if b in (2, 10, 16, 36) or thorough:
+                    for n in (max(L - 1, 0), L, L + 1, L + 2):
+                        for term in (0, 1):
+                            add("from_integer ty=%s v=%d base=%d len=%d term=%d" % (ty, v, b, n, term), "from_integer/16")
     # ---- formatting, 32/64 bit
     for ty in ("i32", "u32", "i64", "u64"):
         allv = set()
@@ -189,6 +260,30 @@ def generate(tier, seed):
         for _ in range(50000 if thorough else 1500):
             v = rnd.randint(*limits(ty))
             add("round_trip ty=%s v=%d base=%d" % (ty, venc(v), rnd.randint(2, 36)), "round_trip")
+    # ---- the other integral types (char, char8_t, char16_t, char32_t, wchar_t, long long, unsigned long long):
+    # same templates, own overload resolution (etl::abs, numeric_limits, promotions)
+    for ty in ALIAS:
+        allv = set()
+        for b in (range(2, 37) if thorough else (2, 8, 10, 16, 36)):
+            vs = interesting(ty, b, rnd, 6 if thorough else 2)
+            allv |= set(vs[:: 1 if thorough else 4])
+            for v in vs:
+                L = len(render(v, b))
+                for n in (0, max(L - 1, 0), L, L + 1):
+                    add("to_chars ty=%s v=%d base=%d len=%d" % (ty, venc(v), b, n), "to_chars/chartypes")
+                for term in (0, 1):
+                    add("from_integer ty=%s v=%d base=%d len=%d term=%d" % (ty, venc(v), b, L + term, term),
+                        "from_integer/chartypes")
+            for t in parse_texts(ty, b, rnd):
+                add("from_chars ty=%s s=%s base=%d" % (ty, enc(t), b), "from_chars/chartypes")
+                if rnd.random() < 0.3:
+                    add("to_integer ty=%s s=%s base=%d ws=%d" % (ty, enc(t), b, rnd.randint(0, 1)), "to_integer/chartypes")
+        for v in sorted(allv):
+            add("to_chars_all ty=%s v=%d" % (ty, venc(v)), "to_chars_all/chartypes")
+        for _ in range(3000 if thorough else 150):
+            v = rnd.randint(*limits(ty))
+            add("round_trip ty=%s v=%d base=%d" % (ty, venc(v), rnd.randint(2, 36)), "round_trip")
+
     # ---- to_string<Capacity>
     for fn, ty in (("i32", "i32"), ("u32", "u32"), ("i64", "i64"), ("u64", "u64"), ("ill", "i64"), ("ull", "u64")):
         for v in interesting(ty, 10, rnd, 60 if thorough else 15):
@@ -236,6 +331,21 @@ def generate(tier, seed):
         else:
             add("to_integer ty=%s s=%s base=%d ws=%d" % (ty, enc(t), b, rnd.randint(0, 1)), "to_integer/rand")
 
+    # ---- to_integer with check_overflow = false: every text for the types where an unrepresentable value wraps
+    # (unsigned, and narrower than int); for int / long (signed overflow = undefined behaviour) only texts whose
+    # value is representable
+    for ty in list(TYPES) + ["c8", "c16", "wc", "ill"]:
+        ub = TYPES[ALIAS.get(ty, ty)] in ((32, True), (64, True))
+        lo, hi = limits(ty)
+        for b in (range(2, 37) if thorough else (2, 8, 10, 16, 36)):
+            texts = parse_texts(ty, b, rnd) + [random_text(b, rnd) for _ in range(20 if thorough else 6)]
+            for t in texts:
+                ws = rnd.randint(0, 1)
+                v = py_parse(ty, t, b, ws)
+                if ub and v is not None and not lo <= v <= hi:
+                    continue
+                add("to_integer_nc ty=%s s=%s base=%d ws=%d" % (ty, enc(t), b, ws), "to_integer_nc")
+
     # ---- the C library / std::string families
     cfns = ["strtol", "strtoll", "strtoul", "strtoull"]
     afns = ["atoi", "atol", "atoll"]
@@ -243,11 +353,24 @@ def generate(tier, seed):
     calpha = ["0", "1", "9", "f", "x", "-", "+", " "]
     cshort = [list(t) for n in range(0, 5) for t in itertools.product(calpha, repeat=n)]
     for s in cshort:
-        for fn, b in (("strtol", 10), ("strtoul", 16), ("stoi", 10), ("atoi", 10)):
-            if len(s) == 4 and fn in ("stoi", "atoi") and not thorough:
+        for fn, b in (("strtol", 10), ("strtoul", 16), ("stoi", 10), ("atoi", 10), ("strtol", 0), ("stoul", 0)):
+            if len(s) == 4 and fn in ("stoi", "atoi", "stoul") and not thorough:
                 continue
             op = "sto" if fn.startswith("sto") else "cstr"
-            add("%s fn=%s s=%s base=%d" % (op, fn, enc(s), b), op + "/short")
+            add("%s fn=%s s=%s base=%d" % (op, fn, enc(s), b), op + ("/short" if b else "/short-base0"))
+    # base 0 (auto-detect): every strto*/sto* function on hexadecimal / octal / decimal texts around its limits
+    for fn in cfns + sfns:
+        op = "sto" if fn in sfns else "cstr"
+        for t in auto_texts(FN_TY[fn], rnd):
+            add("%s fn=%s s=%s base=0" % (op, fn, enc(t)), op + "/base0")
+        for _ in range(3000 if thorough else 300):
+            bb = rnd.choice([8, 10, 16])
+            t = random_text(bb, rnd)
+            body = t.lstrip(" \t-+")
+            t = t[: len(t) - len(body)] + {16: rnd.choice(["0x", "0X"]), 8: "0", 10: ""}[bb] + body
+            if rnd.random() < 0.15:
+                t = t[: rnd.randint(0, len(t))] + "\x00" + t
+            add("%s fn=%s s=%s base=0" % (op, fn, enc(t)), op + "/base0-rand")
     for fn in cfns + afns + sfns:
         ty = FN_TY[fn]
         op = "sto" if fn in sfns else "cstr"
@@ -327,8 +450,6 @@ def classify(case, k, row):
         i += 1
     sign = s[i] if i < len(s) and s[i] in (43, 45) else None
     j = i + 1 if sign else i
-    if base == 0:
-        return "F-C10-cstdlib-base-zero"                      # Spec: base 0 = auto-detect; tetl: division by zero
     if sign == 43:
         return "F-C10-cstdlib-plus-sign"                      # Spec.plusSign
     if base == 16 and len(s) >= j + 3 and s[j] == 48 and s[j + 1] in (120, 88) and _hex_digit(s[j + 2]):
@@ -356,9 +477,11 @@ THEOREMS = {
     "to_string": [P + "toStr_eq"],
     "from_chars": [P + "toInteger_eq", P + "fromChars_eq_partial", P + "fromChars_range", P + "overflow_exact"],
     "to_integer": [P + "toInteger_eq", P + "overflow_exact"],
+    "to_integer_nc": [P + "toInteger_unchecked_eq", P + "toInteger_unchecked_outside"],
     "round_trip": [P + "round_trip"],
-    "cstr": [P + "toInteger_eq", P + "strto_eq_partial", P + "ato_eq_partial"],
-    "sto": [P + "toInteger_eq", P + "strto_eq_partial"],
+    "cstr": [P + "toInteger_eq", P + "toInteger_auto_eq", P + "cstrto_eq_partial", P + "strto_eq_partial",
+             P + "strto_auto_eq_partial", P + "ato_eq_partial"],
+    "sto": [P + "toInteger_eq", P + "toInteger_auto_eq", P + "strto_eq_partial", P + "strto_auto_eq_partial"],
 }
 
 CLAIMED = True
@@ -370,15 +493,27 @@ LEVEL_TEXT = ("The model of strings::from_integer (hence to_chars, to_string) is
               "report overflow otherwise, leaving the rest of the buffer untouched, for every width, signedness, base 2..36, "
               "value and buffer length; the model of strings::to_integer (hence from_chars, sto*, strto*, ato*) is proved to "
               "return value, consumed count and error class of the from_chars grammar for every byte string, with overflow "
-              "detected exactly at the type's limits and no signed overflow or out-of-string read; parsing the formatted text "
-              "returns the value. The model is tied to the current source on every run by running it and the implementation "
+              "detected exactly at the type's limits and no signed overflow or out-of-string read; with base 0 (strtol's "
+              "auto-detection, used by strto*/sto*) the base is taken from the text (0x/0X + hex digit, leading 0, else "
+              "decimal) and the same holds, and strto* read nothing at or after the first NUL; parsing the formatted text "
+              "returns the value. The strto*/sto*/ato* results are proved equal to the C grammar only outside the input "
+              "classes of the recorded deviations. The model is tied to the current source on every run by running it and the implementation "
               "on the same inputs under ASan/UBSan with guard bytes; the spec is validated against libstdc++/glibc.")
 LEVEL_NOTE = ("Trusted: Lean kernel + propext/Classical.choice/Quot.sound; fidelity of the hand model outside the explored "
               "inputs; g++-12/ASan/UBSan; libstdc++/glibc as oracle for spec validation. Recorded deviations (known findings): "
-              "from_chars returns ptr=first on result_out_of_range (the suite asserts it); strto*/sto*/ato* lack '+', 0x/base 0, "
-              "ERANGE saturation, strtoul negation and exceptions. Members listed in coverage.correspondence_only have no "
+              "from_chars returns ptr=first on result_out_of_range (the suite asserts it); strto*/sto*/ato* do not accept '+' "
+              "or a 0x prefix with base 16, return 0 with end=str instead of saturating with ERANGE, do not negate for "
+              "strtoul('-1'), and sto* do not throw. Repaired: strto*/sto* with base 0 crashed (division by zero, SIGFPE). "
+              "Members listed in coverage.correspondence_only have no "
               "theorem of their own yet.")
 # every modelled member has a theorem; what is compared but not proved:
 CORRESPONDENCE_ONLY = ["etl::reverse inside from_integer (modelled by its contract, loop not modelled here: C06)",
                        "sto* on views with an embedded NUL (theorem is about the view as given; the oracle truncates)",
-                       "sto* exceptions / strto* errno (outside the model: recorded findings)"]
+                       "sto* exceptions / strto* errno (outside the model: recorded findings)",
+                       "to_integer<check_overflow = false> on texts whose value is not representable: outside the option's "
+                       "contract, no theorem beyond toInteger_unchecked_outside; the wrap-around is compared implementation = "
+                       "model for unsigned and narrower-than-int types, int/long are not run there (undefined behaviour)",
+                       "to_integer / from_chars called directly with base 0: proved (toInteger_auto_eq), executed only "
+                       "through strto*/sto* (std::from_chars has no base 0 to validate the spec against)",
+                       "char8_t/char16_t/char32_t/wchar_t: the theorems are per (bits, signed); the reference of the run is the "
+                       "standard integer type of the same width and signedness"]
